@@ -421,10 +421,115 @@ type cfg struct {
 
 var cfgs = []cfg{{-1, false}, {0, false}, {16, false}, {-1, true}, {0, true}, {16, true}}
 
+
+// ---- bulk monitor: hundreds to thousands of entries expiring at the same moment
+
+type BulkCase struct {
+	N       int    `json:"n"`
+	Cleanup bool   `json:"cleanup"`
+	DefMs   int    `json:"default_ms"`
+	Seed    uint64 `json:"seed"`
+}
+
+func runBulk(w *core.Worker, c BulkCase) {
+	var viol, detail string
+	fail := func(sig, format string, a ...any) {
+		if viol == "" {
+			viol, detail = "cache."+sig, fmt.Sprintf(format, a...)
+		}
+	}
+	p := core.Catch(func() {
+		synctest.Test(w.R.T.(*testing.T), func(t *testing.T) {
+			rng := core.NewRand(c.Seed)
+			def := time.Duration(c.DefMs) * time.Millisecond
+			var cl time.Duration
+			if c.Cleanup {
+				cl = interval
+			}
+			ch := cache.New[string, string](def, cl)
+			defer ch.VerifStopCleanup()
+			class := map[string]int{} // 0 short, 1 long, 2 never
+			viaMap := map[string]string{}
+			for i := 0; i < c.N; i++ {
+				k := fmt.Sprintf("k%04d", i)
+				cls := rng.Intn(3)
+				class[k] = cls
+				d := []time.Duration{short, long, cache.NoExpiration}[cls]
+				if cls == 0 && i%2 == 0 {
+					viaMap[k] = "v" + k
+					continue
+				}
+				if err := ch.Set(k, "v"+k, d); err != nil {
+					fail("set-new-key-rejected", "bulk: Set(%s) on a fresh key returned %v", k, err)
+					return
+				}
+			}
+			if err := ch.MapToCache(viaMap, short); err != nil {
+				fail("maptocache-error-lost", "bulk: MapToCache of %d fresh keys returned %v", len(viaMap), err)
+				return
+			}
+			check := func(phase string, goneBelow int) bool {
+				want := 0
+				for k, cls := range class {
+					it, err := ch.Get(k)
+					if cls < goneBelow {
+						if err == nil {
+							fail("expired-entry-reported-live", "bulk %s: Get(%s)=(%v,nil) although its deadline has passed", phase, k, valOf(it))
+							return false
+						}
+						continue
+					}
+					want++
+					if err != nil || it.Val() != "v"+k {
+						fail("live-entry-reported-expired", "bulk %s: Get(%s)=(%v,%v) for a live entry", phase, k, valOf(it), err)
+						return false
+					}
+				}
+				if n := ch.Count(); n != want {
+					fail("count-after-purge", "bulk %s: Count()=%d after the purge, %d entries are live (%d stored in all)", phase, n, want, c.N)
+					return false
+				}
+				if l := ch.List(); len(l) != want {
+					fail("list-after-purge", "bulk %s: List() has %d entries after the purge, %d are live", phase, len(l), want)
+					return false
+				}
+				return true
+			}
+			purge := func() {
+				if c.Cleanup {
+					time.Sleep(2*interval + 999*time.Nanosecond) // at least one full cleanup pass after the deadline
+					synctest.Wait()
+				} else if err := ch.DeleteExpired(); err != nil {
+					fail("purge-error", "bulk: DeleteExpired returned %v", err)
+				}
+			}
+			time.Sleep(short + 1001*time.Nanosecond)
+			purge()
+			if !check("after the short deadline", 1) {
+				return
+			}
+			time.Sleep(long)
+			purge()
+			check("after the long deadline", 2)
+		})
+	})
+	if p != nil && viol == "" {
+		viol, detail = "cache.panic", fmt.Sprintf("bulk case panicked: %v", p)
+	}
+	if viol != "" {
+		w.Violation(viol, detail)
+		return
+	}
+	w.NonTrivial(core.HashString(core.JSON(c)))
+	if w.WantSample() {
+		w.Sample(c)
+	}
+}
+
 func TestProp(t *testing.T) {
 	r := core.Start(t, "C08")
 	defer r.Finish()
-	r.Rule("cases = operation sequences on cache.Cache[string,string] (Set/SetDefault/Update/Delete/Flush/DeleteExpired/MapToCache incl. rejected empty values, and Advance steps that move the virtual clock to 1 ns before / 1 ns after the earliest pending deadline, by 1 ms, or past everything) inside a testing/synctest bubble, for default expiry in {-1,0,16ms} x cleanup {off, 7.0037ms}; after EVERY step Get and IsExpired of every key, Count (between live and stored) and List (live entries present, nothing foreign) are compared with a map-with-deadlines model evaluated at the same virtual instant; cleanup ticks are applied to the model at exact multiples of the interval; non-trivial = at least 2 operations; distinct by hash of (configuration, ops)")
+	r.Rule("cache-bulk: 200-3000 entries with short/long/no expiry (half of the short ones through MapToCache), purged by DeleteExpired or by the cleanup goroutine after each deadline: Count, List and every Get exact || cases = operation sequences on cache.Cache[string,string] (Set/SetDefault/Update/Delete/Flush/DeleteExpired/MapToCache incl. rejected empty values, and Advance steps that move the virtual clock to 1 ns before / 1 ns after the earliest pending deadline, by 1 ms, or past everything) inside a testing/synctest bubble, for default expiry in {-1,0,16ms} x cleanup {off, 7.0037ms}; after EVERY step Get and IsExpired of every key, Count (between live and stored) and List (live entries present, nothing foreign) are compared with a map-with-deadlines model evaluated at the same virtual instant; cleanup ticks are applied to the model at exact multiples of the interval; non-trivial = at least 2 operations; distinct by hash of (configuration, ops)")
 
 	L := r.Pick(4, 5)
 	core.Monitor(r, "cache-sweep", 0, func(emit func(Case)) {
@@ -462,4 +567,11 @@ func TestProp(t *testing.T) {
 		}
 	}, run)
 	_ = sort.Strings
+
+	core.Monitor(r, "cache-bulk", 0, func(emit func(BulkCase)) {
+		rng := r.Rand("c08-bulk")
+		for i := r.Pick(24, 400); i > 0; i-- {
+			emit(BulkCase{N: []int{200, 600, 1100, 3000}[rng.Intn(4)] + rng.Intn(9), Cleanup: i%2 == 0, DefMs: []int{-1, 0, 40}[rng.Intn(3)], Seed: rng.Uint64()})
+		}
+	}, runBulk)
 }
